@@ -850,7 +850,7 @@ def stream_function_histories(X):
     c = X.c
     NH = 120 if c.tier == 'quick' else 3000
     cases = []
-    corpus = [('small', 3, 'empty', [('call',), ('call',)]), ('small', 3, 'empty', [('kill', 0), ('kill', 5), ('kill', 2), ('call',), ('call',)]),
+    corpus = [('small', 5, 'illtyped', [('call',), ('call',)]), ('small', 3, 'empty', [('call',), ('call',)]), ('small', 3, 'empty', [('kill', 0), ('kill', 5), ('kill', 2), ('call',), ('call',)]),
               ('raise', 1, 'empty', [('call',), ('kill', 3), ('call',)]), ('arrays', 2, 'oldfail', [('call',), ('call',)]),
               ('small', 4, 'tail', [('kill', 1), ('call',)]), ('none', 0, 'empty', [('intr',), ('call',), ('sub',), ('disabled',)])]
     for kind, seed, init, evs in corpus:
@@ -858,7 +858,7 @@ def stream_function_histories(X):
     for _ in range(NH):
         kind = c.rng.choice(SMALL_KINDS + ['raise', 'raise'])
         seed = c.rng.randrange(30)
-        init = c.rng.choice(['empty'] * 4 + ['prefix', 'prefix', 'complete', 'tail', 'oldok', 'oldfail', 'oldfail-long'])
+        init = c.rng.choice(['empty'] * 4 + ['prefix', 'prefix', 'complete', 'tail', 'oldok', 'oldfail', 'oldfail-long', 'illtyped'])
         evs = []
         for _ in range(c.rng.randint(1, 7)):
             e = c.rng.choice(['call', 'call', 'call', 'kill', 'kill', 'kill', 'intr', 'sub', 'disabled'])
@@ -889,13 +889,15 @@ def stream_function_histories(X):
             oldok = pickle.dumps((rl, False, None))
         oldfail = pickle.dumps((rl, True, None))
         oldfail_long = pickle.dumps((rl, True, 'x' * (len(D) + 50)))
+        illtyped = pickle.dumps((None if isexc else payload(kind, seed), c.rng.choice(['not a log', 7, None, ('write', 'x')])))   # unpickles fine, log component is no RecordLog
         if init == 'oldok' and isexc: init = 'empty'
         if init in ('prefix', 'complete', 'tail') and isexc: init = 'empty'
         file0 = {'empty': b'', 'prefix': D[:c.rng.randrange(len(D) + 1)] if D else b'', 'complete': D, 'tail': D + bytes(c.rng.randrange(256) for _ in range(c.rng.randint(1, 30))),
-                 'oldok': oldok, 'oldfail': oldfail, 'oldfail-long': oldfail_long}[init]
+                 'oldok': oldok, 'oldfail': oldfail, 'oldfail-long': oldfail_long, 'illtyped': illtyped}[init]
         if init == 'oldok': table.append((oldok, 'o 1 0 1'))
         if init == 'oldfail': table.append((oldfail, 'o 1 1 9'))
         if init == 'oldfail-long': table.append((oldfail_long, 'o 1 1 9'))
+        if init == 'illtyped': table.append((illtyped, 'j'))
         d = X.newdir()
         path = os.path.join(d, key)
         if init != 'empty' or c.rng.random() < .3:
@@ -905,7 +907,7 @@ def stream_function_histories(X):
         for i, e in enumerate(evs):
             if e[0] == 'kill':
                 k = e[1] if e[1] is not None else c.rng.choice([0, 1, 2, max(0, len(D) - 1), len(D), len(D) + 3, c.rng.randrange(len(D) + 1), c.rng.randrange(len(D) + 1)])
-                if init.startswith('oldfail') and read(path) in (oldfail, oldfail_long) and 0 < k < len(D):
+                if (init.startswith('oldfail') or init == 'illtyped') and read(path) in (oldfail, oldfail_long, illtyped) and 0 < k < len(D):
                     k = c.rng.choice([0, len(D), len(D) + 3])   # a partial write over an old-format entry is a mixture outside the model: explored separately
                 evs[i] = ('kill', k)
                 code = killed_call(d, kind, seed, k, fork=X.fork_budget())
@@ -944,7 +946,7 @@ def stream_function_histories(X):
             raise Infra('C18 driver rejected a request: ' + rq[:200])
         mans = iter(a.split(';') if a else [])
         rep = dict(stream='function-histories', payload=kind, pseed=seed, init=init, events=evs, file0=list(file0), model=a[:2000])
-        good_init = init in ('empty', 'prefix', 'complete', 'tail', 'oldok', 'oldfail', 'oldfail-long')
+        good_init = init in ('empty', 'prefix', 'complete', 'tail', 'oldok', 'oldfail', 'oldfail-long', 'illtyped')
         ok = True
         c.case((kind, seed, init, tuple(evs)), nontrivial=len(evs) > 1 or init != 'empty')
         c.count('fh:init:' + init); c.count('fh:kind:' + kind)
@@ -1375,6 +1377,17 @@ def stream_recursion(X):
                 if r['resumed'] != want_res or Ds2 != Ds:
                     nbad += 1
                     c.broken_no_input('corr:recursion:truncation', 'after truncating item file %d: resume called with %s (expected %s), files restored=%s' % (i, r['resumed'], want_res, Ds2 == Ds), rep); break
+        # item files that unpickle without error but are ill-typed (what a garbage mixture can look like): must be recomputed
+        for i, bad_item in enumerate([('no log', False, 1), (treelog.RecordLog(), 'no bool', 1), (treelog.RecordLog(), 1), 'x']):
+            j = i % max(1, len([D for D in Ds if D]))
+            write(os.path.join(d, subs[0], '%04d' % j), pickle.dumps(bad_item))
+            r = real_iter(d, obj, 9)
+            npts += 1
+            c.case(('rilltyped', cls.__name__, i), nontrivial=True); c.count('rec:illtyped-item')
+            if r['items'] != specrun['items'] or r['fin'] != specrun['fin']:
+                nbad += 1
+                c.failing_input('recursion-not-transparent:ill-typed-item-file', 'an item file that unpickles to %r (no (RecordLog, bool, value) triple) is not recomputed: iteration ends %r' % (bad_item if isinstance(bad_item, str) else type(bad_item[0]).__name__, r['fin'][:80]),
+                                dict(stream='recursion-illtyped', cls=cls.__name__, spec=spec, item=j, content=repr(bad_item)[:80])); break
         X.drop(d)
     c.obligation('corr:recursion:truncation-points', nbad == 0, 'correspondence', '%d truncated item files' % npts)
 
